@@ -19,6 +19,7 @@ import (
 	"time"
 
 	"github.com/youzan/ZanRedisDB/node"
+	"github.com/youzan/ZanRedisDB/raft"
 
 	"verif/sim/core"
 	"verif/sim/nodeh"
@@ -53,7 +54,11 @@ type sim struct {
 	bootAt int64 // clock when the store of the current process was opened
 	focus  string
 	burst  int
+	frozen bool    // commands share one timestamp
+	follow *Expiry // bracket plan: revisit this expiry from the other side
+	inBurst bool
 	gen    map[string]int // key slot -> generation of its name
+	retired map[string]bool
 	head   []string
 }
 
@@ -122,8 +127,11 @@ func drawCfg(c *core.RunCtx) cfg {
 }
 
 func Run(c *core.RunCtx) {
-	s := &sim{c: c, t: c.Tape, gen: map[string]int{}}
+	s := &sim{c: c, t: c.Tape, gen: map[string]int{}, retired: map[string]bool{}}
 	s.g = drawCfg(c)
+	// election timeouts are drawn from a package-level PRNG that the repository
+	// seeds from the real clock
+	raft.VerifSeedGlobalRand(int64(c.Tape.U32()))
 	c.Log("cfg", "%+v", s.g)
 	// a run that does not end (a goroutine of the node blocked on a lock that is
 	// never released stalls the bubble's clock) is infrastructure, not a verdict
@@ -165,7 +173,13 @@ func Run(c *core.RunCtx) {
 	c.Count("commands", int64(s.ops))
 	ba := s.m.BeforeAndAfter()
 	c.Count("keys_seen_before_and_after_expiry", int64(ba))
-	c.NonTrivial = ba >= 1 && s.env >= 1 && s.ops >= 30
+	// non-trivial: at least one key incarnation was observed alive strictly
+	// before and dead strictly after one and the same expiry second (under
+	// local_deletion also: observed intact before its deadline and a background
+	// pass ran with that key due), at least one environment event (compaction,
+	// restart, background pass) happened and at least 30 commands were checked
+	seen := ba >= 1 || (s.g.ld && s.m.Notes["alive_before"] > 0 && c.Stats["probe.ttl_checker_pass_with_due_keys"] > 0)
+	c.NonTrivial = seen && s.env >= 1 && s.ops >= 30
 	c.Events = int64(s.ops + s.env)
 	pol := "wait_compact"
 	if s.g.ld {
@@ -229,6 +243,17 @@ func (s *sim) bubble() {
 		ev := t.Weighted(w)
 		if s.burst > 0 {
 			ev = 0
+		} else if s.follow != nil {
+			// second half of a bracket: the same expiry seen from after
+			e := *s.follow
+			s.follow = nil
+			after := []int64{e.Xhi, e.Xhi + 1000000, e.Sec*sec + sec, e.Sec*sec + sec + int64(t.Choose(1500))*1000000}[t.Choose(4)]
+			if after >= s.now() {
+				c.Log("aim-after", "%s E=%d -> %s", e.ID, e.Sec, fmtT(after))
+				s.sleepTo(after)
+				s.focus, s.burst = e.ID, 1+t.Choose(3)
+				ev = 0
+			}
 		}
 		switch ev {
 		case 0:
@@ -257,7 +282,10 @@ func (s *sim) bubble() {
 		if !g.ld {
 			cl.Sleep(2500 * time.Millisecond)
 		}
-		if t.Bool(500) {
+		switch {
+		case s.env == 0 && t.Bool(500):
+			s.compact()
+		case s.env == 0 || t.Bool(400):
 			s.restart(t.Bool(500))
 		}
 		for _, typ := range g.types {
@@ -283,21 +311,25 @@ func (s *sim) name(typ byte, i int) string {
 
 func (s *sim) retireTouched() {
 	for _, id := range core.SortedKeys(s.m.LDTouched) {
-		key := id[2:]
-		slot := key
-		if i := strings.IndexByte(slot, '_'); i >= 0 {
-			slot = slot[:i]
-		}
-		if s.name(id[0], int(slot[3]-'0')) != key {
-			continue
-		}
-		s.gen[slot]++
-		s.m.Retire(id)
-		s.c.Log("retire", "%s", id)
+		s.retire(id)
 		s.c.Probe("ld_name_retired_at_restart")
-		if s.focus == id {
-			s.focus, s.burst = "", 0
-		}
+	}
+}
+
+func (s *sim) retire(id string) {
+	key := id[2:]
+	slot := key
+	if i := strings.IndexByte(slot, '_'); i >= 0 {
+		slot = slot[:i]
+	}
+	if s.name(id[0], int(slot[3]-'0')) == key {
+		s.gen[slot]++
+	}
+	s.m.Retire(id)
+	s.retired[key] = true
+	s.c.Log("retire", "%s", id)
+	if s.focus == id {
+		s.focus, s.burst = "", 0
 	}
 }
 
@@ -346,6 +378,14 @@ func (s *sim) restart(kill bool) {
 	if s.g.ld {
 		s.retireTouched()
 	}
+	compacted := false
+	if nn := m.Parts[0]; nn != nil {
+		if first, _ := nn.Node.VerifRaftStorageIndexes(); first > 1 {
+			// the log was cut behind a snapshot: the restart restores the
+			// checkpoint and replays only the tail
+			compacted = true
+		}
+	}
 	if kill {
 		c.Log("kill", "at %s", fmtT(s.now()))
 		c.Fault("kill")
@@ -372,7 +412,15 @@ func (s *sim) restart(kill bool) {
 		return
 	}
 	c.Log("restarted", "at %s", fmtT(s.now()))
+	if n := s.m.OnRestart(s.now()); n > 0 {
+		c.Probe("restart_after_expiry_of_hcleared_hash")
+	}
 	s.env++
+	if compacted {
+		c.Probe("restart_restores_checkpoint_then_replays_tail")
+	} else {
+		c.Probe("restart_replays_whole_log")
+	}
 	if gh > 0 {
 		c.Probe("restart_with_expired_data")
 	}
@@ -458,6 +506,9 @@ func (s *sim) aim() {
 	s.sleepTo(target)
 	s.focus = e.ID
 	s.burst = 1 + t.Choose(4)
+	if target < E && !s.g.ld && t.Bool(600) {
+		s.follow = &e
+	}
 }
 
 // ---- commands ---------------------------------------------------------------------
@@ -471,8 +522,10 @@ func (s *sim) command() {
 	t, g := s.t, s.g
 	var typ byte
 	var key string
+	s.inBurst = false
 	if s.burst > 0 && s.focus != "" {
 		s.burst--
+		s.inBurst = true
 		typ, key = s.focus[0], s.focus[2:]
 	} else {
 		s.burst = 0
@@ -480,7 +533,36 @@ func (s *sim) command() {
 		key = s.name(typ, t.Choose(2))
 	}
 	var op Op
-	if t.Bool(g.readPm) {
+	if g.sameInst && !g.ld && typ != 'k' && t.Bool(40) {
+		// create, clear (or EXPIRE 0) and create again under one timestamp
+		s.frozen = true
+		seq := []Op{s.genWrite(typ, key), s.clearOp(typ, key), s.genWrite(typ, key), s.fullRead(typ, key)}
+		if t.Bool(300) {
+			seq[1] = Op{Name: string(typ) + "expire", Typ: typ, Keys: []string{key}, Args: []string{"0"}}
+		}
+		for i, o := range seq {
+			if i == len(seq)-1 {
+				s.frozen = false
+			}
+			if s.retired[key] || s.failed() {
+				break
+			}
+			s.exec(o)
+		}
+		s.frozen = false
+		c := s.c
+		c.Probe("create_clear_create_under_one_timestamp")
+		return
+	}
+	if !g.ld && typ != 'b' && t.Bool(25) {
+		s.scan(typ)
+		return
+	}
+	rp := g.readPm
+	if s.inBurst && rp < 650 {
+		rp = 650
+	}
+	if t.Bool(rp) {
 		op = s.genRead(typ, key)
 	} else if t.Bool(g.expPm) && strings.IndexByte(g.expTypes, typ) >= 0 {
 		op = s.genExpiry(typ, key)
@@ -488,6 +570,13 @@ func (s *sim) command() {
 		op = s.genWrite(typ, key)
 	}
 	s.exec(op)
+}
+
+func (s *sim) clearOp(typ byte, key string) Op {
+	if typ == 'b' {
+		return Op{Name: "bitclear", Typ: typ, Keys: []string{key}}
+	}
+	return Op{Name: string(typ) + "clear", Typ: typ, Keys: []string{key}}
 }
 
 func (s *sim) ttlSecs() string {
@@ -512,6 +601,10 @@ func (s *sim) genExpiry(typ byte, key string) Op {
 				return Op{Name: "set", Typ: typ, Keys: k, Args: []string{s.val(), "ex", s.ttlSecs()}}
 			}
 			return Op{Name: "setex", Typ: typ, Keys: k, Args: []string{s.ttlSecs(), s.val()}}
+		}
+		if t.Bool(60) {
+			// EXPIRE 0: the key's time is up at once
+			return Op{Name: pre + "expire", Typ: typ, Keys: k, Args: []string{"0"}}
 		}
 		return Op{Name: pre + "expire", Typ: typ, Keys: k, Args: []string{s.ttlSecs()}}
 	case 1:
@@ -542,9 +635,11 @@ func (s *sim) genRead(typ byte, key string) Op {
 	}
 	switch typ {
 	case 'k':
-		switch t.Choose(6) {
+		switch t.Choose(7) {
 		case 0, 1:
 			return o("get")
+		case 6:
+			return o("getrange", fmt.Sprint(t.Choose(3)), fmt.Sprint(pick(t, 3, -1, 1)))
 		case 2:
 			return o("exists")
 		case 3:
@@ -555,7 +650,9 @@ func (s *sim) genRead(typ byte, key string) Op {
 			return o("strlen")
 		}
 	case 'h':
-		switch t.Choose(8) {
+		switch t.Choose(9) {
+		case 8:
+			return o("hscan", "", "count", "100")
 		case 0, 1:
 			return o("hgetall")
 		case 2:
@@ -583,7 +680,11 @@ func (s *sim) genRead(typ byte, key string) Op {
 			return o("lindex", fmt.Sprint(t.Choose(3)))
 		}
 	case 's':
-		switch t.Choose(5) {
+		switch t.Choose(7) {
+		case 5:
+			return o("sscan", "", "count", "100")
+		case 6:
+			return o("srandmember", "5")
 		case 0, 1:
 			return o("smembers")
 		case 2:
@@ -594,7 +695,15 @@ func (s *sim) genRead(typ byte, key string) Op {
 			return o("sismember", s.member())
 		}
 	case 'z':
-		switch t.Choose(6) {
+		switch t.Choose(10) {
+		case 6:
+			return o("zscan", "", "count", "100")
+		case 7:
+			return o("zrangebyscore", "-inf", "+inf")
+		case 8:
+			return o("zrevrange", "0", "-1")
+		case 9:
+			return o("zcount", "-inf", "+inf")
 		case 0, 1:
 			return o("zrange", "0", "-1", "withscores")
 		case 2:
@@ -723,8 +832,56 @@ func (s *sim) genWrite(typ byte, key string) Op {
 	return o("setbit", s.bitOff(), "1")
 }
 
+// scan lists the keys of one type in the table and checks the listing.
+func (s *sim) scan(typ byte) {
+	c, cl := s.c, s.cl
+	tn := map[byte]string{'k': "kv", 'h': "hash", 'l': "list", 's': "set", 'z': "zset"}[typ]
+	args := []interface{}{"advscan", nodeh.NS + ":t:", tn, "count", "100"}
+	if typ == 'k' && s.t.Bool(500) {
+		args = []interface{}{"scan", nodeh.NS + ":t:", "count", "100"}
+	}
+	tInv := s.now()
+	call := cl.Invoke(cl.M[0], nodeh.Cmd(args...))
+	for r := 0; r < 100 && !call.Done(); r++ {
+		cl.PumpFair(1, nil)
+	}
+	r, ok := call.Reply()
+	c.Log("scan", "@%s %v -> %s", fmtT(tInv), args[:3], nodeh.Fmt(r))
+	s.ops++
+	var listed []string
+	good := false
+	if arr, isArr := r.([]interface{}); ok && isArr && len(arr) == 2 {
+		if cur, isB := arr[0].([]byte); isB && len(cur) == 0 {
+			if l, isL := arr[1].([]interface{}); isL {
+				good = true
+				for _, x := range l {
+					b, isB := x.([]byte)
+					if !isB {
+						good = false
+					}
+					listed = append(listed, string(b))
+				}
+			}
+		}
+	}
+	if !good {
+		c.Violate(prop, "scan-reply-malformed", "", "%v at %s answered %s", args, fmtT(tInv), nodeh.Fmt(r))
+		return
+	}
+	res := s.m.CheckScan(typ, tInv, listed, s.retired)
+	switch {
+	case !res.OK:
+		c.Violate(prop, "scan-differs-from-model", "", "%v at %s answered %s: %s (engine %s)", args[:3], fmtT(tInv), nodeh.Fmt(r), res.Expected, s.g.engine)
+	case res.Via != "":
+		c.Probe("scan_listed_dead_key")
+		c.Violate(prop, "known-"+res.Via, res.Via, "%v at %s answered %s (engine %s)", args[:3], fmtT(tInv), nodeh.Fmt(r), s.g.engine)
+	}
+}
+
 func isRead(name string) bool {
 	switch name {
+	case "getrange", "hscan", "sscan", "srandmember", "zscan", "zrangebyscore", "zrevrange", "zcount":
+		return true
 	case "get", "strlen", "exists", "mget", "ttl", "hgetall", "hlen", "hkeyexist", "hget", "hexists", "hmget", "hkeys", "hvals", "httl",
 		"lrange", "llen", "lkeyexist", "lindex", "lttl", "smembers", "scard", "skeyexist", "sismember", "sttl",
 		"zrange", "zcard", "zkeyexist", "zscore", "zrank", "zttl", "getbit", "bitcount", "bkeyexist", "bttl":
@@ -808,8 +965,14 @@ func (s *sim) exec(op Op) {
 		c.Violate(prop, rule, "", "%s at %s answered %s, the model allows %s (policy %s, engine %s)", op, fmtT(tInv), raw, res.Expected, s.policy(), s.g.engine)
 	case res.Via != "":
 		c.Violate(prop, "known-"+res.Via, res.Via, "%s at %s answered %s (policy %s, engine %s)", op, fmtT(tInv), raw, s.policy(), s.g.engine)
+		if res.Retire {
+			s.retire(string(op.Typ) + "|" + op.Keys[0])
+		}
 	}
 	// simulated time flows with work
+	if s.frozen {
+		return
+	}
 	if !rd {
 		if s.g.sameInst && s.t.Bool(400) {
 			c.Probe("same_timestamp_as_next_command")
